@@ -1097,6 +1097,16 @@ def check(ctx):
     check_fresh_buffers(ctx)
     check_own_state(ctx)
     check_parallel_queues(ctx)
+    # the splitter used at a division is the one registered with the rule / event that fired: the per-rule and per-event splitter lists
+    # of the LineageModel are rebuilt (cleared, then filled once) on every initialisation, so an index means the same rule in both
+    # (C08 R8.3-rebuild) - re-emitted here
+    from ..core import SubCtx
+    from . import c08
+    sub = SubCtx(ctx)
+    c08.check_rebuild(sub)
+    for rule, key, ok, where, what, detail in sub.got:
+        if rule == 'R8.3-rebuild' and key.startswith('LineageModel/'):
+            ctx.ob('R19.3-splitter-choice', 'C08/%s/%s' % (rule, key), ok, where, what, detail)
     ctx.floor('R19.3-queues-parallel', 3)
     ctx.floor('R19.1-conservation', 3)
     ctx.floor('R19.1-volume', 3)
